@@ -16,6 +16,10 @@ typedef int MPI_Comm;
 typedef int MPI_Datatype;
 typedef int MPI_Op;
 #define MPI_COMM_WORLD 0
+// a communicator that is a proper part of the world (as MPI_Comm_split makes them): the ranks that take part in the integration when
+// shim_run is given outsiders > 0.  Its rank r is world rank r + outsiders; the world has size + outsiders processes; the outsiders are
+// busy elsewhere, so a collective on MPI_COMM_WORLD can never complete.
+#define SHIM_COMM_GROUP 1
 #define MPI_IN_PLACE (reinterpret_cast<void*>(-1))
 #define MPI_SUCCESS 0
 enum { MPI_UNSIGNED = 1, MPI_UNSIGNED_LONG, MPI_UNSIGNED_LONG_LONG, MPI_FLOAT, MPI_DOUBLE, MPI_LONG_DOUBLE, MPI_INT, MPI_CHAR, MPI_BYTE, MPI_C_BOOL };
@@ -42,5 +46,7 @@ struct shim_report
 };
 
 // run body(rank) on `world` threads; `perm` is the order in which contributions are summed
-shim_report shim_run(int world, std::vector<int> const& perm, std::function<void(int)> const& body);
+shim_report shim_run(int world, std::vector<int> const& perm, std::function<void(int)> const& body, int outsiders = 0);
+// the communicator the integration should be given in the current shim_run
+MPI_Comm shim_comm();
 #endif
